@@ -179,18 +179,29 @@ fn main() {
         }
         let perm = if i % 5 == 4 { 1 } else { 0 };
         if perm != 0 {
-            rules.push("a.com##+js(trusted, 1)".to_string());
+            rules.push("a.com##+js(perm.js, 1)".to_string());
             rules.push(format!("{}##+js(perm.js, {})", r.pick(gen::DOMAINS), i));
         }
         let (debug, optimize) = [(false, true), (true, true), (false, false), (true, false)][i % 4];
         let mut qs = queries(&mut r, &rules, 12);
-        qs.push(Query { url: "https://ads.net/x?utm=1&b=2".into(), source: "https://a.com/".into(), ty: "script".into() });
-        qs.push(Query { url: format!("https://{}/p?{}=1", r.pick(gen::HOSTS), r.pick(gen::PARAMS)), source: "https://b.com/".into(), ty: "image".into() });
+        qs.push(Query { url: "https://ads.net/x?utm=1&b=2".into(), source: "https://a.com/".into(), ty: "xhr".into() });
+        qs.push(Query { url: format!("https://{}/p?{}=1", r.pick(gen::HOSTS), r.pick(gen::PARAMS)), source: "https://b.com/".into(), ty: "document".into() });
         let c = Case {
             rules, debug, optimize, perm,
             t0: strs(TAGSETS[r.below(TAGSETS.len())]), tl: strs(TAGSETS[r.below(TAGSETS.len())]), qs,
         };
         let Some((e, l, bytes)) = run_case(&mut sm, &c, false) else { continue };
+        // observation (not part of C08): the raw injected_script of one engine varies between calls
+        if c.rules.iter().filter(|l| l.contains("##+js(")).count() >= 2 {
+            for h in gen::DOMAINS {
+                let u = format!("https://{}/p", h);
+                let first = e.url_cosmetic_resources(&u).injected_script;
+                if first.matches("try {").count() >= 2 {
+                    let varies = (0..6).any(|_| e.url_cosmetic_resources(&u).injected_script != first);
+                    cs.stat(if varies { "injected_script_block_order_varies_on_one_engine" } else { "injected_script_block_order_stable_6_calls" });
+                }
+            }
+        }
         // ---- correspondence: predicted reloaded state vs dumped reloaded state
         let cd = dump_cosmetic(&e);
         let dl = dump_engine_blocker(&l);
